@@ -409,7 +409,7 @@ impl Palette {
                 }
                 Err(err) => return Err(anyhow::anyhow!("Invalid input: {err}")),
             },
-            PaletteFormat::Ase => todo!(),
+            PaletteFormat::Ase => return Err(anyhow::anyhow!("Invalid input: the ASE palette format is not supported")),
         }
         Ok(Self {
             title,
